@@ -216,4 +216,3 @@ void sim_alloc_free_all_live(void) {
     if(tab) memset(tab, 0, tab_cap * sizeof(*tab));
     tab_used = tab_tomb = 0; live_count = live_bytes = 0;
 }
-
